@@ -23,7 +23,9 @@
 use super::{ArrayData, ArrayDataBuilder, ByteView, data::new_buffers};
 use crate::bit_mask::set_bits;
 use arrow_buffer::buffer::{BooleanBuffer, NullBuffer};
-use arrow_buffer::{ArrowNativeType, Buffer, IntervalMonthDayNano, MutableBuffer, bit_util, i256};
+use arrow_buffer::{
+    ArrowNativeType, Buffer, IntervalDayTime, IntervalMonthDayNano, MutableBuffer, bit_util, i256,
+};
 use arrow_schema::{ArrowError, DataType, IntervalUnit, UnionMode};
 use half::f16;
 use num_integer::Integer;
@@ -259,8 +261,11 @@ fn build_extend(array: &ArrayData) -> Extend<'_> {
         DataType::Date64
         | DataType::Time64(_)
         | DataType::Timestamp(_, _)
-        | DataType::Duration(_)
-        | DataType::Interval(IntervalUnit::DayTime) => primitive::build_extend::<i64>(array),
+        | DataType::Duration(_) => primitive::build_extend::<i64>(array),
+        // 8 bytes wide but only 4 byte aligned: must not be read as i64
+        DataType::Interval(IntervalUnit::DayTime) => {
+            primitive::build_extend::<IntervalDayTime>(array)
+        }
         DataType::Interval(IntervalUnit::MonthDayNano) => {
             primitive::build_extend::<IntervalMonthDayNano>(array)
         }
@@ -308,8 +313,8 @@ fn build_extend_nulls(data_type: &DataType) -> ExtendNulls {
         DataType::Date64
         | DataType::Time64(_)
         | DataType::Timestamp(_, _)
-        | DataType::Duration(_)
-        | DataType::Interval(IntervalUnit::DayTime) => primitive::extend_nulls::<i64>,
+        | DataType::Duration(_) => primitive::extend_nulls::<i64>,
+        DataType::Interval(IntervalUnit::DayTime) => primitive::extend_nulls::<IntervalDayTime>,
         DataType::Interval(IntervalUnit::MonthDayNano) => {
             primitive::extend_nulls::<IntervalMonthDayNano>
         }
